@@ -25,6 +25,7 @@ type GenOpts struct {
 	MaxFacts    int
 	NoFloat     bool // avoid fn:avg (float results)
 	NoCollect   bool
+	NoOrderCmp  bool // no <, <=, >, >= (C15: outside post-hoc provenance)
 	AggBias     bool // C02: most rules aggregate, several aggregating rules per head
 }
 
@@ -40,6 +41,7 @@ func DrawOpts(r *simrt.Run) GenOpts {
 	o.Structured = r.Bool("gen.f.struct")
 	o.Lets = r.Bool("gen.f.let")
 	o.Strings = r.Bool("gen.f.str")
+	o.NegWildcard = r.Bool("gen.f.negwild")
 	return o
 }
 
@@ -308,7 +310,7 @@ func (g *gen) genRule(h PredInfo, k int) Rule {
 	for x := 0; x < nExtra; x++ {
 		switch r.Choose(7, "gen.extra.kind") {
 		case 0: // comparison
-			if !o.Compare {
+			if !o.Compare || o.NoOrderCmp {
 				continue
 			}
 			if v, ok := g.pickVar(env, TInt, "gen.cmp.var"); ok {
@@ -511,7 +513,7 @@ func (g *gen) genAggRule(h PredInfo, env *varEnv) (Rule, bool) {
 		}
 		body = append(body, Lit{K: LAtom, Pred: q.Name, Args: args})
 	}
-	if g.o.Compare && r.OneIn(3, "gen.agg.cmp") {
+	if g.o.Compare && !g.o.NoOrderCmp && r.OneIn(3, "gen.agg.cmp") {
 		if v, ok := g.pickVar(env, TInt, "gen.agg.cmpvar"); ok {
 			body = append(body, Lit{K: LGe, Args: []Expr{V(v), C(g.constOf(TInt))}})
 		}
